@@ -1013,6 +1013,8 @@ class Analyzer:
         for s in blk["stmts"]:
             if s["k"] == "assign":
                 self.assign(f, st, s["place"], s["rv"])
+                if self.overrides and not s["place"]["proj"] and (f.path, s["place"]["local"]) in self.overrides:
+                    st.v[(s["place"]["local"], ())] = self.overrides[(f.path, s["place"]["local"])]
             elif s["k"] == "setdiscr":
                 k = place_key(s["place"])
                 if k:
